@@ -57,6 +57,12 @@ PURE_EXTERNALS = {
 }
 
 
+_CONTAINER_TYPES = frozenset((
+    'list', 'deque', 'dict', 'set', 'frozenset', 'tuple', 'WeakSet', 'SortedDict',
+    'SortedList', 'SortedKeyList', 'WeakValueDictionary', 'WeakKeyDictionary',
+    'OrderedDict'))
+
+
 class Exc:
     """abstract exception: class name + the event that produced it"""
     __slots__ = ('cls', 'origin', 'tag')
@@ -686,15 +692,105 @@ class Interp:
         for key in dead:
             del st.facts[key]
 
-    def _kill_call(self, st: St, call: ast.Call):
-        """an impure call: attribute based facts and facts on the receiver die"""
+    MUTATORS = frozenset((
+        'append', 'appendleft', 'pop', 'popleft', 'popitem', 'remove', 'clear', 'add',
+        'discard', 'insert', 'extend', 'extendleft', 'update', 'setdefault', 'sort',
+        'reverse', 'rotate', 'push', 'send', 'throw', 'close', 'enter_context'))
+
+    def mod_of(self, callee: Callee):
+        """(attribute names possibly written transitively, unknown effects?)"""
+        key = ('mod',) + callee.key()
+        found = self._pure.get(key)
+        if found is not None:
+            return found
+        self._pure[key] = (frozenset(), False)  # recursion: optimistic, fixed below
+        fn = callee.fn
+        frame = Frame(fn, callee.recv)
+        attrs, unknown = set(), False
+        body = [fn.node.body] if isinstance(fn.node, ast.Lambda) else fn.node.body
+        stack = list(body)
+        while stack:
+            node = stack.pop()
+            if isinstance(node, (ast.FunctionDef, ast.AsyncFunctionDef, ast.ClassDef,
+                                 ast.Lambda)):
+                continue
+            if isinstance(node, (ast.Attribute, ast.Subscript)) and \
+                    isinstance(node.ctx, (ast.Store, ast.Del)):
+                target = node if isinstance(node, ast.Attribute) else node.value
+                if isinstance(target, ast.Attribute):
+                    attrs.add(target.attr)
+                elif not isinstance(target, ast.Name):
+                    unknown = True
+            elif isinstance(node, ast.Call):
+                callees, externals = self.te.resolve_callees(node, frame)
+                for sub in callees:
+                    sub_attrs, sub_unknown = self.mod_of(sub)
+                    attrs |= sub_attrs
+                    unknown |= sub_unknown
+                for ext in externals:
+                    if ext[0] == 'construct':
+                        continue
+                    name = ext[-1].split('.')[-1]
+                    if ext[0] == 'extmeth' and name in self.MUTATORS:
+                        recv = node.func.value if isinstance(node.func, ast.Attribute) \
+                            else None
+                        if isinstance(recv, ast.Attribute):
+                            attrs.add(recv.attr)
+                        elif isinstance(recv, ast.Subscript) and \
+                                isinstance(recv.value, ast.Attribute):
+                            attrs.add(recv.value.attr)
+                        elif not isinstance(recv, ast.Name):
+                            unknown = True
+                    elif ext[0] == 'unknown':
+                        unknown = True
+                    elif ext[0] == 'extfn' and name in ('heappush', 'heappop'):
+                        first = node.args[0] if node.args else None
+                        if isinstance(first, ast.Attribute):
+                            attrs.add(first.attr)
+                        elif not isinstance(first, ast.Name):
+                            unknown = True
+                    elif ext[0] == 'extfn' and name in ('exec', 'setattr', 'delattr'):
+                        unknown = True
+            stack.extend(ast.iter_child_nodes(node))
+        result = (frozenset(attrs), unknown)
+        self._pure[key] = result
+        return result
+
+    def _kill_call(self, st: St, call: ast.Call, callees=None, externals=None, fr=None):
+        """an impure call: facts on what it may write and on the receiver die"""
         recv = None
         if isinstance(call.func, ast.Attribute):
             recv = _dotted(call.func.value)
+        if not callees and externals and fr is not None and all(
+                ext[0] == 'extmeth' and ext[1] in _CONTAINER_TYPES for ext in externals):
+            # a method of a builtin container changes that container only: facts die if
+            # they are about the receiver or about something that may alias a container
+            dead = []
+            for key in st.facts:
+                for dep in _fact_deps(key):
+                    if recv is not None and (dep == recv or dep.startswith(recv + '.')
+                                             or recv.startswith(dep + '.')):
+                        dead.append(key)
+                        break
+                    if '.' in dep and self._may_be_container(dep, fr):
+                        dead.append(key)
+                        break
+            for key in dead:
+                del st.facts[key]
+            return
+        attrs, unknown = None, True
+        if callees:
+            attrs, unknown = set(), False
+            for callee in callees:
+                sub_attrs, sub_unknown = self.mod_of(callee)
+                attrs |= sub_attrs
+                unknown |= sub_unknown
         dead = []
         for key in st.facts:
             if _fact_has_attr(key):
-                dead.append(key)
+                if unknown or attrs is None or _fact_attr_names(key) & attrs or \
+                        '(' in ''.join(key[1:]):
+                    dead.append(key)
             elif recv is not None and any(
                     dep == recv or dep.startswith(recv + '.') or recv.startswith(dep + '.')
                     for dep in _fact_deps(key)):
@@ -1430,22 +1526,37 @@ class Interp:
             s = st.fork()
             event = self._emit(s, 'call', node, fr, exit=cls, **common)
             if not pure:
-                self._kill_call_node(s, node)
+                self._kill_call_node(s, node, callees if not externals else None, externals, fr)
             raised.append((('raise', Exc(cls, event)), s))
         returns = not sync or any(
             self.summary(c).returns or c.fn.name in ('__init__', '__new__') for c in sync)
         if returns:
             self._emit(st, 'call', node, fr, exit='normal', **common)
             if not pure:
-                self._kill_call_node(st, node)
+                self._kill_call_node(st, node, callees if not externals else None, externals, fr)
             results.append(st)
         return results
 
-    def _kill_call_node(self, st, node):
+    def _kill_call_node(self, st, node, callees=None, externals=None, fr=None):
         if isinstance(node, ast.Call):
-            self._kill_call(st, node)
+            self._kill_call(st, node, callees, externals, fr)
         else:
             self._kill_call_generic(st)
+
+    def _may_be_container(self, dep: str, fr) -> bool:
+        try:
+            tree = ast.parse(dep, mode='eval').body
+        except SyntaxError:
+            return True
+        types = self.te.expr_type(tree, fr.frame)
+        for term in types:
+            if term[0] in ('cont', 'tuple', 'unknown', 'awaitable'):
+                return True
+            if term[0] == 'ext' and term[1] in _CONTAINER_TYPES:
+                return True
+            if term[0] == 'ext' and term[1].startswith('result-of'):
+                return True
+        return False
 
     def ex_Await(self, expr, sts, fr, raised):
         sts = self.ev(expr.value, sts, fr, raised)
@@ -1942,6 +2053,14 @@ def _fact_deps(key) -> set:
 def _fact_has_attr(key) -> bool:
     return any('.' in dep for dep in _fact_deps(key)) or any(
         '(' in part or '[' in part for part in key[1:])
+
+
+def _fact_attr_names(key) -> set:
+    names = set()
+    for dep in _fact_deps(key):
+        parts = dep.split('.')
+        names.update(parts[1:])
+    return names
 
 
 def _target_subexprs(target) -> list:
